@@ -11,12 +11,7 @@ use crate::explore::{Act, EngineViolation, Ev, Ret};
 use crate::gen::{RunCfg, Shape, Strat};
 use crate::model::{GraphFacts, Kind};
 
-#[derive(Clone, Debug, PartialEq, Eq, Serialize, Deserialize)]
-pub struct Violation {
-    pub prop: String,
-    pub kind: String,
-    pub msg: String,
-}
+pub use crate::violation::Violation;
 
 fn v(prop: &str, kind: &str, msg: String) -> Violation {
     Violation {
